@@ -26,6 +26,9 @@ def batches (order : List Nat) (bs : Option Nat) (dropLast : Bool) : Option (Lis
   | some 0 => none
   | some (b + 1) => some (batchLoop (b + 1) dropLast order [])
 
+/-- `RandomSampler.__init__` (used for `shuffle=True`) rejects an empty data source. -/
+def randomSamplerRaises (n : Nat) (shuffle : Bool) : Bool := shuffle && n == 0
+
 /-- `collate_fn(index) = self.tensor_frame[index]` with the index the fetcher hands over: the list
     of sample indices of a batch, or the bare `int` when automatic batching is disabled. -/
 def collate (ops : FeatOps Φ) (f : Frame Φ β) (bs : Option Nat) (b : List Nat) : Option (Frame Φ β) :=
